@@ -41,6 +41,28 @@ def check(tier, seed):
                                            ifdata=rng.choice([None, 'unknown', 'empty']), a2ml='simple' if rng.random() < 0.15 else None)
         texts.append(('valid', text))
     texts += c06.gen_texts(rng, tier)
+    # code that the translator could not account for: search around the element types it names
+    import docgen
+    import random as _random
+    sp = docs.spec()
+    for tname in sorted(set(f.get('type') for f in docs.TRANSLATION_FAILURES if f.get('type'))):
+        for j in range(40 if tier == 'quick' else 400):
+            try:
+                opts = docgen.GenOptions(version=rng.choice(docs.VERSIONS[-2:]), focus=tname, all_optionals=True, max_depth=4, p_optional=0.2)
+                node = docgen.gen_tree(sp, _random.Random(rng.randrange(1 << 30)), opts)
+            except Exception:
+                continue
+            targets = [n for n, _p in node.walk() if n.type == tname]
+            for n in targets[:2]:
+                slots = docgen._safe_keyword_slots(sp, n)
+                blocks = list(range(len(n.kids) + 1))
+                for slot, is_block in [(s_, False) for s_ in slots] + [(rng.choice(blocks), True)]:
+                    new = docgen.Node(None, 'UNKNOWN_%s' % ('BLOCK' if is_block else 'KW'), is_block,
+                                      payload=[docgen.Val('int', 1, '1'), docgen.Val('int', 2, '2')])
+                    n.kids.insert(slot, new)
+                    text, _ = docgen.render(node, _random.Random(1), docgen.Layout(mode='canonical'), sp)
+                    n.kids.pop(slot)
+                    texts.append(('targeted:' + tname, text))
     tuples = []
     for kind, t in texts:
         tuples.append((t, True, None, 1))
